@@ -109,6 +109,11 @@ def build(world, shard):
         sink(node)
         t.nodes["timed_window"] = node
         t.skeleton, t.batched = ident, True
+    elif name == "partition":
+        node = src.partition(n)
+        sink(node)
+        t.nodes["partition"] = node
+        t.skeleton, t.batched = (lambda L: list(L[:len(L) - len(L) % n])), True
     elif name == "partition-timeout":
         node = src.partition(n, timeout=iv)
         sink(node)
@@ -160,6 +165,15 @@ def build(world, shard):
         t.nodes["zip"] = node
         t.kind = "zip2"
         t.bound = ("zip", n)
+    elif name == "zip3":
+        src2 = Stream(asynchronous=True)
+        src3 = Stream(asynchronous=True)
+        t.sources += [src2, src3]
+        node = src.zip(src2, src3, maxsize=n)
+        sink(node)
+        t.nodes["zip"] = node
+        t.kind = "zip2"
+        t.bound = ("zip", n)
     elif name == "union-delay":
         src2 = Stream(asynchronous=True)
         t.sources.append(src2)
@@ -183,8 +197,10 @@ ALLOWED = (0, 1, 2, 3, 4, 9)
 
 def allowed_for(shard):
     a = [0, 2, 9]
-    if shard["template"] in ("zip-buffer-delay", "zip", "union-delay", "union"):
+    if shard["template"] in ("zip-buffer-delay", "zip", "union-delay", "union", "zip3"):
         a.append(1)
+    if shard["template"] == "zip3":
+        a.append(6)
     if shard.get("out_of_order", False):
         a.append(3)
     if shard.get("timers", False):
@@ -204,10 +220,11 @@ class Run:
     pass
 
 
-def run(shard, choices, with_ref=False, nmd=1, after_step=None):
+def run(shard, choices, with_ref=False, nmd=1, after_step=None, record_md=False):
     """Execute template + schedule.  Returns Run (or None when the schedule is pruned)."""
     r = Run()
     with untraced():
+        r.record_md = record_md
         return _run(shard, list(choices), with_ref, nmd, after_step, r)
 
 
@@ -219,14 +236,20 @@ def _run(shard, cs, with_ref, nmd, after_step, r):
     r.callbacks = []
     r.refs = {}
     r.events = []
+    r.md_seen = []
+    if getattr(r, "record_md", False):
+        # a recording node next to the consumer: sees exactly the metadata the consumer's node is offered
+        up = t.sinks["k"].upstreams[0]
+        r.rec = Rec(up, r.md_seen, "k")
     nitems = shard.get("items", 3)
     awaiting = shard.get("awaiting", True)
 
     def mk_md(x):
         if not with_ref:
             return None
-        return make_metadata(x, nmd, True, world.io, r.callbacks, refs=r.refs, events=r.events,
-                             clock=world.loop.time)
+        k = nmd if nmd != "vary" else (x % 3)        # 0, 1 or 2 dictionaries, varying with the token
+        return make_metadata(x, k, True, world.io, r.callbacks, refs=r.refs, events=r.events,
+                             clock=world.loop.time) or None
     mk = t.items_fn or (lambda p, i: p * 100 + i)
     r.producers = [Producer(world, s, [mk(p, i) for i in range(nitems)], awaiting=awaiting,
                             metadata=mk_md if with_ref else None)
@@ -242,6 +265,11 @@ def _run(shard, cs, with_ref, nmd, after_step, r):
         r.failed = []
 
         def extra(c):
+            if c == 6:
+                if len(r.producers) < 3 or not r.producers[2].enabled():
+                    return False
+                r.producers[2].step()
+                return True
             if c != 5:
                 return False
             p = world.pending()
